@@ -138,12 +138,18 @@ def scan_file(path, rel):
             for item in n.items:
                 if is_adf_call(item.context_expr):
                     allowed_adf.add(id(item.context_expr.func))
+                    if item.context_expr.keywords:
+                        raise Unsupported("%s:%d: library use of altered_default_filters with keyword arguments (extend=) "
+                                          "would make the pushed entry depend on the caller's stack" % (rel, n.lineno))
         if isinstance(n, (ast.FunctionDef, ast.AsyncFunctionDef)):
             for d in n.decorator_list:
                 if is_adf_call(d):
                     if isinstance(n, ast.AsyncFunctionDef):
                         raise Unsupported("%s: decorated async function %s" % (rel, n.name))
                     allowed_adf.add(id(d.func))
+                    if d.args or d.keywords:
+                        raise Unsupported("%s: @altered_default_filters(...) with arguments on %s (the model takes the "
+                                          "decorator's entry to be `()`)" % (rel, n.name))
         if isinstance(n, ast.Attribute) and n.attr == "__name__" and is_adf_ref(n.value):
             allowed_adf.add(id(n.value))
         if (isinstance(n, ast.Subscript) and isinstance(n.value, ast.Name) and n.value.id == DF
